@@ -98,8 +98,8 @@ pub enum Validity {
     /// all-ones padding of 8..=29 bits
     OverlongPadding(usize),
     /// 30 consecutive ones at a symbol boundary: the EOS symbol; `at_end` when only one-bits
-    /// follow it up to the end of the payload
-    Eos { at_end: bool },
+    /// follow it up to the end of the payload, `trailing_bits` how many bits follow it
+    Eos { at_end: bool, trailing_bits: usize },
     /// trailing bits that are not all ones (an incomplete code that is not an EOS prefix)
     BadPadding,
 }
@@ -140,7 +140,7 @@ pub fn classify(payload: &[u8]) -> Validity {
                 let rest = nbits - pos;
                 let all_ones = (pos..nbits).all(|i| bit(i) == 1);
                 return if len == 30 && code == 0x3fff_ffff {
-                    Validity::Eos { at_end: all_ones }
+                    Validity::Eos { at_end: all_ones, trailing_bits: rest - 30 }
                 } else if !all_ones {
                     Validity::BadPadding
                 } else if rest <= 7 {
